@@ -35,6 +35,10 @@ type cursorWorkload struct {
 	MetaBug    MetaBuggify         `json:"meta_buggify"`
 	RealMeta   bool                `json:"real_memory_metastore"`
 	LazyTomb   bool                `json:"lazy_tombstone"`
+	// ReorderFilters rewrites the files the way an external writer may lay them out: the block
+	// filter sections in reverse block order inside the region (legal for the format; the query's
+	// filter pass then needs one region read per block instead of one per file).
+	ReorderFilters bool `json:"reorder_filter_sections"`
 	FaultClass int                 `json:"fault_class"`
 }
 
@@ -95,10 +99,16 @@ func genCursorWorkload(w *Tape) *cursorWorkload {
 	wl := &cursorWorkload{}
 	nf := w.Range(1, 5)
 	for f := 0; f < nf; f++ {
-		nb := w.Range(1, 4)
+		// Mostly a few blocks of any size; sometimes many small blocks, so that the 16-entry block
+		// job channel fills up behind stalled consumers.
+		nb := []int{1, 2, 3, 4, 2, 3, 8, 14}[w.Draw(8)]
 		var blocks []int
 		for b := 0; b < nb; b++ {
-			blocks = append(blocks, []int{1, 3, 10, 40, 70, 130, 300}[w.Draw(7)])
+			if nb > 4 {
+				blocks = append(blocks, []int{1, 3, 10, 40}[w.Draw(4)])
+			} else {
+				blocks = append(blocks, []int{1, 3, 10, 40, 70, 130, 300}[w.Draw(7)])
+			}
 		}
 		wl.Files = append(wl.Files, blocks)
 	}
@@ -110,6 +120,7 @@ func genCursorWorkload(w *Tape) *cursorWorkload {
 		wl.MetaBug = MetaBuggify{IgnorePrefilter: w.Draw(3) == 0, FilterBlocks: w.Bool(), ReverseBlocks: w.Draw(3) == 0, ReverseFiles: w.Draw(3) == 0}
 	}
 	wl.LazyTomb = w.Bool()
+	wl.ReorderFilters = w.Draw(3) == 0
 	wl.FaultClass = w.Draw(4)
 	nc := w.Range(1, 5)
 	nq := len(cursorQueries())
@@ -201,6 +212,39 @@ func (st *cursorState) buildStore() {
 	}
 	if err := eng.Stop(context.Background()); err != nil {
 		panic(err)
+	}
+}
+
+// reorderFilterSections reverses the order of the filter sections inside every file's block filter
+// region and updates the metadata held by the MetaStore accordingly.
+func (st *cursorState) reorderFilterSections() {
+	metas, err := ListMeta(st.meta)
+	if err != nil {
+		return
+	}
+	for _, mf := range metas {
+		md := cloneFileMetadata(mf.Meta)
+		if len(md.DataBlocks) < 2 {
+			continue
+		}
+		data, ok := st.disk.FileBytes(mf.Ptr)
+		if !ok {
+			continue
+		}
+		out := append([]byte(nil), data...)
+		off := md.BlockFilterRegionOffset
+		for i := len(md.DataBlocks) - 1; i >= 0; i-- {
+			b := &md.DataBlocks[i]
+			sec := data[b.BloomFilterOffset : b.BloomFilterOffset+b.BloomFilterSize]
+			copy(out[off:], sec)
+			b.BloomFilterOffset = off
+			off += b.BloomFilterSize
+		}
+		st.disk.SetFileBytes(mf.Ptr, out)
+		if err := st.meta.Update(context.Background(), []bs.WriteOperation{{FileMetadata: &md, FilePointerBytes: []byte(mf.Ptr)}}, nil); err != nil {
+			panic(err)
+		}
+		st.r.Probe("cursor.filter-sections-reordered")
 	}
 }
 
@@ -508,6 +552,9 @@ func RunCursor(r *Run, variant string) {
 	}
 	simrt.SetMode(simrt.ModeOff)
 	st.buildStore()
+	if wl.ReorderFilters {
+		st.reorderFilterSections()
+	}
 	st.census = TakeCensus(st.meta, st.disk, true)
 	if st.simMeta != nil {
 		st.simMeta.Bug = wl.MetaBug
